@@ -974,4 +974,682 @@ theorem npTokens_skip {ln : Str} (h : SkipLine ln) : npTokens ln = [] := by
     simp only [List.append_nil] at this
     rw [this]; rfl
 
+/-! ### plain decimal tokens are quiet -/
+
+def plainChar (c : Char) : Bool := isDigit c || c == '+' || c == '-' || c == '.' || c == 'e' || c == 'E'
+
+/-- no digit immediately before a `-` -/
+def noDigitHyphen : Str → Bool
+  | a :: b :: rest => !(isUDigit a && b == '-') && noDigitHyphen (b :: rest)
+  | _ => true
+
+/-- Characters `0-9 + - . e E` only, not empty, at most one `.`, no digit immediately before a `-`.
+Every plain decimal number `[+-]?(\d+\.?\d*|\.\d+)([eE][+-]?\d+)?` satisfies this: its only `-` signs stand first or after `e`/`E`. -/
+def simplePlain (t : Str) : Bool :=
+  !t.isEmpty && t.all plainChar && decide (t.count '.' ≤ 1) && noDigitHyphen t
+
+theorem isDigit_toNat (c : Char) (h : isDigit c = true) : 48 ≤ c.toNat ∧ c.toNat ≤ 57 := by
+  unfold isDigit at h
+  simp only [Bool.and_eq_true, decide_eq_true_eq] at h
+  obtain ⟨h1, h2⟩ := h
+  rw [Char.le_def] at h1 h2
+  have a1 : (48 : Nat) ≤ c.val.toNat := by simpa using UInt32.le_iff_toNat_le.mp h1
+  have a2 : c.val.toNat ≤ 57 := by simpa using UInt32.le_iff_toNat_le.mp h2
+  exact ⟨a1, a2⟩
+
+theorem toNat_tokChar (c : Char) (h1 : 33 ≤ c.toNat) (h2 : c.toNat ≤ 126) (h3 : c.toNat ≠ 34) (h4 : c.toNat ≠ 39)
+    (h5 : c.toNat ≠ 35) : tokChar c = true := by
+  have e : ∀ d : Char, c = d → c.toNat = d.toNat := fun d h => by rw [h]
+  unfold tokChar isPySpace
+  simp only [Bool.and_eq_true, Bool.not_eq_true', bne_iff_ne, ne_eq, Bool.or_eq_false_iff, Bool.and_eq_false_iff,
+    decide_eq_false_iff_not, beq_eq_false_iff_ne]
+  refine ⟨⟨⟨⟨?_, ?_⟩, ?_⟩, ?_⟩, ?_⟩
+  · omega
+  · intro h; have := e _ h; simp at this; omega
+  · intro h; have := e _ h; simp at this; omega
+  · intro h; have := e _ h; simp at this; omega
+  · intro h; have := e _ h; simp [ctrlZ] at this; omega
+
+theorem plainChar_tokChar (c : Char) (h : plainChar c = true) : tokChar c = true := by
+  unfold plainChar at h
+  simp only [Bool.or_eq_true, beq_iff_eq] at h
+  rcases h with ((((h | rfl) | rfl) | rfl) | rfl) | rfl
+  · obtain ⟨a, b⟩ := isDigit_toNat c h
+    exact toNat_tokChar c (by omega) (by omega) (by omega) (by omega) (by omega)
+  all_goals decide
+
+theorem plainChar_ne (c d : Char) (h : plainChar c = true) (hd : plainChar d = false) : (c == d) = false := by
+  rw [beq_eq_false_iff_ne]; intro e; subst e; simp [h] at hd
+
+theorem mem_of_suffix {s t : Str} (h : s <:+ t) {c : Char} (hc : c ∈ s) : c ∈ t := h.subset hc
+
+theorem noMatch_comma_simple (t : Str) (h : ∀ c ∈ t, plainChar c = true) : NoMatch mComma t := by
+  intro s hs
+  match s, hs with
+  | [], _ => rfl
+  | [_], _ => rfl
+  | [_, _], _ => rfl
+  | a :: p :: b :: r, hs =>
+    have hp : plainChar p = true := h p (mem_of_suffix hs (by simp))
+    simp [mComma, plainChar_ne p ',' hp (by decide)]
+
+theorem noDigitHyphen_suffix (t s : Str) (h : noDigitHyphen t = true) (hs : s <:+ t) : noDigitHyphen s = true := by
+  induction t with
+  | nil => have : s = [] := by simpa using hs
+           subst this; rfl
+  | cons c cs ih =>
+    rw [List.suffix_cons_iff] at hs
+    rcases hs with rfl | hs
+    · exact h
+    · apply ih _ hs
+      cases cs with
+      | nil => rfl
+      | cons b r => simp only [noDigitHyphen, Bool.and_eq_true] at h; exact h.2
+
+theorem noMatch_hyphen_simple (t : Str) (h : noDigitHyphen t = true) : NoMatch mHyphen t := by
+  intro s hs
+  have := noDigitHyphen_suffix t s h hs
+  match s, this with
+  | [], _ => rfl
+  | [_], _ => rfl
+  | [_, _], _ => rfl
+  | a :: p :: b :: r, hn =>
+    simp only [noDigitHyphen, Bool.and_eq_true, Bool.not_eq_true', Bool.and_eq_false_iff] at hn
+    rcases hn.1 with ha | hp
+    · simp [mHyphen, ha]
+    · simp [mHyphen, hp]
+
+theorem digitsThenDot_count (s : Str) (n : Nat) (r : Str) (h : digitsThenDot s = some (n, r)) :
+    s.count '.' = r.count '.' + 1 := by
+  induction s generalizing n with
+  | nil => simp [digitsThenDot] at h
+  | cons c cs ih =>
+    simp only [digitsThenDot] at h
+    split at h
+    · rename_i hc
+      simp only [beq_iff_eq] at hc
+      simp only [Option.some.injEq, Prod.mk.injEq] at h
+      obtain ⟨_, rfl⟩ := h
+      subst hc
+      simp
+    · rename_i hc
+      split at h
+      · cases hd : digitsThenDot cs with
+        | none => simp [hd] at h
+        | some nr =>
+          simp only [hd, Option.map_some, Option.some.injEq, Prod.mk.injEq] at h
+          obtain ⟨_, rfl⟩ := h
+          have := ih nr.1 (by rw [hd])
+          have hne : c ≠ '.' := by simpa using hc
+          rw [List.count_cons_of_ne hne]
+          exact this
+      · simp at h
+
+theorem dotTail_count (neg : Nat) (s : Str) (n : Nat) (h : dotTail neg s = some n) : 2 ≤ s.count '.' := by
+  unfold dotTail at h
+  split at h
+  · rename_i d1 s3 h1
+    split at h
+    · rename_i d2 s5 h2
+      have a := digitsThenDot_count s d1 s3 h1
+      have b := digitsThenDot_count s3 d2 s5 h2
+      omega
+    · simp at h
+  · simp at h
+
+theorem mDotAlt1_count (s : Str) (n : Nat) (h : mDotAlt1 s = some n) : 2 ≤ s.count '.' := by
+  cases s with
+  | nil => simp [mDotAlt1] at h
+  | cons c cs =>
+    simp only [mDotAlt1] at h
+    split at h
+    · have := dotTail_count 1 cs n h
+      have : cs.count '.' ≤ (c :: cs).count '.' := by
+        rw [List.count_cons]; omega
+      omega
+    · exact dotTail_count 0 (c :: cs) n h
+
+theorem noMatch_dot_simple (t : Str) (h : ∀ c ∈ t, plainChar c = true) (hd : t.count '.' ≤ 1) : NoMatch mDot t := by
+  intro s hs
+  unfold mDot
+  cases h1 : mDotAlt1 s with
+  | some n =>
+    have := mDotAlt1_count s n h1
+    have := hs.sublist.count_le '.'
+    omega
+  | none =>
+    simp only
+    have : mDotAlt2 s = none := by
+      match s, hs with
+      | [], _ | [_], _ | [_, _], _ | [_, _, _], _ | [_, _, _, _], _ => rfl
+      | c1 :: c2 :: c3 :: p :: d :: rest, hs =>
+        have hp : plainChar c1 = true := h c1 (mem_of_suffix hs (by simp))
+        simp [mDotAlt2, plainChar_ne c1 'N' hp (by decide)]
+    rw [this]
+
+/-- every plain decimal token is a quiet token -/
+theorem quietTok_of_simple (t : Str) (h : simplePlain t = true) : QuietTok t := by
+  unfold simplePlain at h
+  simp only [Bool.and_eq_true, Bool.not_eq_true', List.all_eq_true, decide_eq_true_eq] at h
+  obtain ⟨⟨⟨h1, h2⟩, h3⟩, h4⟩ := h
+  exact {
+    ne := by intro e; subst e; simp at h1
+    chars := fun c hc => plainChar_tokChar c (h2 c hc)
+    comma := noMatch_comma_simple t h2
+    hyphen := noMatch_hyphen_simple t h4
+    dot := noMatch_dot_simple t h2 h3 }
+
+/-! ## Part 3: the r × c matrix, plain data sections (domain of C02) -/
+
+/-- the r × c matrix as typed columns: column j holds the j-th entry of every row -/
+def matrixColumns (ft : FloatTable) (c : Nat) (rows : List (List Str)) : List Column :=
+  (List.range c).map fun j => typedColumn ft (rows.map fun r => r.getD j [])
+
+theorem matrixColumns_eq (ft : FloatTable) (c : Nat) (rows : List (List Str)) :
+    matrixColumns ft c rows = (columnsOf c rows).map (typedColumn ft) := by
+  simp [matrixColumns, columnsOf, columnOf]
+
+/-- Normal engine, `n_columns = c`, flat token sequence = the row-major flattening of an r × c matrix (r ≥ 1, c ≥ 1):
+the result is the c columns of the matrix, column j = the j-th entries of the rows. -/
+theorem normalEngineLines_matrix (ft : FloatTable) (sb : Subs) (dlm : Dlm) (body : List Str) (rows : List (List Str)) (c : Nat)
+    (hc : 0 < c) (hr : rows ≠ []) (hrows : ∀ r ∈ rows, r.length = c)
+    (htoks : normalTokens sb dlm body = rows.flatten) :
+    normalEngineLines ft sb dlm c body = .ok (matrixColumns ft c rows) := by
+  unfold normalEngineLines
+  simp only [htoks]
+  have hlen := length_flatten_eq c rows hrows
+  have hne : rows.flatten.isEmpty = false := by
+    cases rows with
+    | nil => exact absurd rfl hr
+    | cons r rs =>
+      have : r.length = c := hrows r (by simp)
+      cases r with
+      | nil => simp at this; omega
+      | cons a t => rfl
+  simp only [hne, Bool.false_eq_true, ↓reduceIte, hc, hlen, Nat.mul_mod_left, bne_self_eq_false]
+  rw [reshape_flatten c hc rows hrows, matrixColumns_eq]
+
+/-! ### the domain -/
+
+/-- `Body c body rows`: the body lines are blank lines, comment lines and data lines of `c` quiet tokens; `rows` are the token
+rows of the data lines in order -/
+inductive Body (c : Nat) : List Str → List (List Str) → Prop
+  | nil : Body c [] []
+  | skip {ln : Str} {ls : List Str} {rows : List (List Str)} : SkipLine ln → Body c ls rows → Body c (ln :: ls) rows
+  | row {ln : Str} {toks : List Str} {ls : List Str} {rows : List (List Str)} :
+      RowLine toks ln → toks.length = c → Body c ls rows → Body c (ln :: ls) (toks :: rows)
+
+structure PlainData (ft : FloatTable) (body after : List Str) (c : Nat) (rows : List (List Str)) : Prop where
+  body : Body c body rows
+  cpos : 0 < c
+  rne : rows ≠ []
+  /-- end of file, or a next line whose first token is not a number (a `~` title line) -/
+  next : after = [] ∨ ∃ ln rest t ts, after = ln :: rest ∧ npTokens ln = t :: ts ∧ toFloat ft t = none
+
+/-- every token is a number for `float()` -/
+def Numeric (ft : FloatTable) (rows : List (List Str)) : Prop := ∀ r ∈ rows, ∀ t ∈ r, (toFloat ft t).isSome
+
+/-! ### facts about bodies -/
+
+theorem body_rows_len {c : Nat} {body : List Str} {rows : List (List Str)} (h : Body c body rows) :
+    ∀ r ∈ rows, r.length = c := by
+  induction h with
+  | nil => simp
+  | skip _ _ ih => exact ih
+  | row _ hl _ ih => intro r hr; simp only [List.mem_cons] at hr; rcases hr with rfl | hr; exact hl; exact ih r hr
+
+theorem body_length {c : Nat} {body : List Str} {rows : List (List Str)} (h : Body c body rows) :
+    rows.length ≤ body.length := by
+  induction h with
+  | nil => simp
+  | skip _ _ ih => simp; omega
+  | row _ _ _ ih => simp; omega
+
+theorem body_ne {c : Nat} {body : List Str} {rows : List (List Str)} (h : Body c body rows) (hr : rows ≠ []) : body ≠ [] := by
+  intro e; subst e
+  have := body_length h
+  cases rows with
+  | nil => exact hr rfl
+  | cons r rs => simp at this
+
+/-- the flat token sequence of the normal engine is the row-major flattening of the matrix -/
+theorem body_normalTokens (sb : Subs) {c : Nat} {body : List Str} {rows : List (List Str)} (h : Body c body rows) :
+    normalTokens sb .space body = rows.flatten := by
+  induction h with
+  | nil => rfl
+  | skip hs _ ih =>
+    simp only [normalTokens, List.flatMap_cons, lineTokens_skip sb .space hs, List.nil_append]
+    exact ih
+  | row hr _ _ ih =>
+    simp only [normalTokens, List.flatMap_cons, lineTokens_row sb hr, List.flatten_cons]
+    rw [← ih]; rfl
+
+/-- the sniffer's sample: one entry per data line, each counting `c` items whatever substitutions are active -/
+theorem body_sample {c : Nat} {body : List Str} {rows : List (List Str)} (h : Body c body rows) :
+    (body.filterMap sampleLine).length = rows.length ∧
+    ∀ l ∈ body.filterMap sampleLine, ∀ sb, (splitLine .space (applySubs sb l)).length = c := by
+  induction h with
+  | nil => simp
+  | skip hs _ ih => simp only [List.filterMap_cons, sampleLine_skip hs]; exact ih
+  | row hr hl _ ih =>
+    obtain ⟨l, h1, h2⟩ := sampleLine_row hr
+    simp only [List.filterMap_cons, h1, List.length_cons, List.mem_cons]
+    refine ⟨by omega, ?_⟩
+    intro x hx sb
+    rcases hx with rfl | hx
+    · rw [h2 sb, hl]
+    · exact ih.2 x hx sb
+
+theorem consistent_const (l : List Nat) (c : Nat) (hne : l ≠ []) (h : ∀ x ∈ l, x = c) : consistent l = some c := by
+  cases l with
+  | nil => exact absurd rfl hne
+  | cons n rest =>
+    have hn : n = c := h n (by simp)
+    subst hn
+    have : rest.all (· == n) = true := by
+      rw [List.all_eq_true]; intro x hx; simp [h x (by simp [hx])]
+    simp [consistent, this]
+
+/-! ### the window -/
+
+/-- what the two engines are given: the normal engine visits exactly the body; the numpy engine gets everything after the title
+and `max_rows = |body|` -/
+theorem window_plain (pre : List Str) (title : Str) (body after : List Str) (hb : body ≠ []) :
+    bodyLines (pre ++ title :: (body ++ after)) pre.length (pre.length + body.length) = body ∧
+    (pre ++ title :: (body ++ after)).drop (pre.length + 1) = body ++ after ∧
+    (pre.length + body.length) - pre.length = body.length := by
+  have hd : (pre ++ title :: (body ++ after)).drop (pre.length + 1) = body ++ after := by
+    rw [← List.drop_drop, List.drop_left]; rfl
+  refine ⟨?_, hd, by omega⟩
+  unfold bodyLines
+  simp only [hd]
+  have : pre.length + body.length - pre.length = body.length := by omega
+  rw [this, List.take_left]
+
+/-! ### the sniffer on plain data -/
+
+theorem sniff_plain (sb : Subs) (pre : List Str) (title : Str) {body after : List Str} {c : Nat} {rows : List (List Str)}
+    (h : Body c body rows) (hr : rows ≠ []) :
+    (sniffColumns sb .space (pre ++ title :: (body ++ after)) pre.length (pre.length + body.length)).count = some c := by
+  unfold sniffColumns
+  simp only [(window_plain pre title body after (body_ne h hr)).1]
+  obtain ⟨hlen, hcnt⟩ := body_sample h
+  apply consistent_const
+  · intro e
+    have : ((body.filterMap sampleLine).take 21).length = 0 := by
+      have := congrArg List.length e
+      simpa using this
+    rw [List.length_take, hlen] at this
+    cases rows with
+    | nil => exact hr rfl
+    | cons r rs => simp at this
+  · intro x hx
+    simp only [List.mem_map] at hx
+    obtain ⟨l, hl, rfl⟩ := hx
+    exact hcnt l (List.mem_of_mem_take hl) sb
+
+theorem sniffTwice_plain (sb : Subs) (pre : List Str) (title : Str) {body after : List Str} {c : Nat} {rows : List (List Str)}
+    (h : Body c body rows) (hr : rows ≠ []) :
+    ∃ sb', sniffTwice sb .space (pre ++ title :: (body ++ after)) pre.length (pre.length + body.length) = (sb', some c) := by
+  unfold sniffTwice
+  simp only
+  split
+  · exact ⟨_, by rw [sniff_plain sb.dropHyphen pre title h hr]⟩
+  · exact ⟨_, by rw [sniff_plain sb pre title h hr]⟩
+
+/-! ### the numpy engine on plain data -/
+
+theorem npCollect_skip (c b : Nat) (ln : Str) (rest : List Str) (h : npTokens ln = []) :
+    npCollect c b (ln :: rest) = npCollect c b rest := by
+  cases b with
+  | zero => simp [npCollect]
+  | succ b => simp [npCollect, h]
+
+theorem npCollect_zero (c : Nat) (l : List Str) : npCollect c 0 l = some [] := by
+  cases l <;> rfl
+
+theorem npCollect_nil (c b : Nat) : npCollect c b [] = some [] := by
+  cases b <;> rfl
+
+/-- a line with tokens: an error, or one more row -/
+theorem npCollect_next (c k : Nat) (ln : Str) (rest : List Str) (t : Str) (ts : List Str) (h : npTokens ln = t :: ts) :
+    npCollect c (k + 1) (ln :: rest) = none ∨ ∃ rows2, npCollect c (k + 1) (ln :: rest) = some ((t :: ts) :: rows2) := by
+  simp only [npCollect, h, List.isEmpty_cons, Bool.false_eq_true, ↓reduceIte]
+  by_cases hl : ((t :: ts).length != c) = true
+  · left; rw [if_pos hl]
+  · rw [if_neg hl]
+    cases npCollect c k rest with
+    | none => left; rfl
+    | some r => right; exact ⟨r, rfl⟩
+
+/-- genfromtxt over the body: the rows, then it goes on with the remaining budget -/
+theorem body_npCollect {c : Nat} (hc : 0 < c) {body : List Str} {rows : List (List Str)} (h : Body c body rows)
+    (after : List Str) (k : Nat) :
+    npCollect c (rows.length + k) (body ++ after) = (npCollect c k after).map (rows ++ ·) := by
+  induction h with
+  | nil => simp
+  | skip hs _ ih => rw [List.cons_append, npCollect_skip _ _ _ _ (npTokens_skip hs)]; exact ih
+  | @row ln toks ls rows' hr hl _ ih =>
+    have e : (toks :: rows').length + k = (rows'.length + k) + 1 := by simp; omega
+    rw [List.cons_append, e]
+    have hne : toks.isEmpty = false := by
+      cases toks with
+      | nil => simp at hl; omega
+      | cons _ _ => rfl
+    simp only [npCollect, npTokens_row hr, hne, Bool.false_eq_true, ↓reduceIte, hl, bne_self_eq_false]
+    rw [ih]
+    cases npCollect c k after <;> simp
+
+theorem body_npFirstCount {c : Nat} (hc : 0 < c) {body : List Str} {rows : List (List Str)} (h : Body c body rows)
+    (hr : rows ≠ []) (after : List Str) : npFirstCount (body ++ after) = some c := by
+  induction h with
+  | nil => exact absurd rfl hr
+  | skip hs _ ih => simp only [List.cons_append, npFirstCount, npTokens_skip hs]; exact ih hr
+  | @row ln toks ls rows' hrow hl _ _ =>
+    have hne : toks.isEmpty = false := by
+      cases toks with
+      | nil => simp at hl; omega
+      | cons _ _ => rfl
+    simp [npFirstCount, npTokens_row hrow, hne, hl]
+
+/-- the numpy engine gives the matrix columns, or raises; it never gives anything else -/
+theorem numpy_plain {ft : FloatTable} {body after : List Str} {c : Nat} {rows : List (List Str)} (h : PlainData ft body after c rows) :
+    numpyEngineLines ft body.length (body ++ after) = some (matrixColumns ft c rows) ∨
+    numpyEngineLines ft body.length (body ++ after) = none := by
+  have hb := body_ne h.body h.rne
+  have hm : ¬ body.length < 1 := by
+    cases body with
+    | nil => exact absurd rfl hb
+    | cons _ _ => simp
+  obtain ⟨k, hk⟩ : ∃ k, body.length = rows.length + k := ⟨body.length - rows.length, by have := body_length h.body; omega⟩
+  unfold numpyEngineLines
+  simp only [hm, ↓reduceIte, body_npFirstCount h.cpos h.body h.rne after]
+  rw [hk, body_npCollect h.cpos h.body after k]
+  have fin : ∀ rows2, allFloatCols ft (columnsOf c (rows ++ rows2)) = none ∨ rows2 = [] →
+      (match (some (rows ++ rows2) : Option (List (List Str))) with
+        | none => (none : Option (List Column))
+        | some rws => allFloatCols ft (columnsOf c rws)) = some (matrixColumns ft c rows) ∨
+      (match (some (rows ++ rows2) : Option (List (List Str))) with
+        | none => (none : Option (List Column))
+        | some rws => allFloatCols ft (columnsOf c rws)) = none := by
+    intro rows2 h2
+    simp only
+    rcases h2 with h2 | rfl
+    · exact Or.inr h2
+    · simp only [List.append_nil]
+      cases hall : allFloatCols ft (columnsOf c rows) with
+      | none => exact Or.inr rfl
+      | some out => left; rw [allFloatCols_eq ft _ out hall, matrixColumns_eq]
+  cases k with
+  | zero =>
+    rw [npCollect_zero]
+    exact fin [] (Or.inr rfl)
+  | succ k =>
+    rcases h.next with rfl | ⟨ln, rest, t, ts, rfl, htok, hnf⟩
+    · rw [npCollect_nil]
+      exact fin [] (Or.inr rfl)
+    · rcases npCollect_next c k ln rest t ts htok with hx | ⟨rows2, hx⟩
+      · rw [hx]; right; rfl
+      · rw [hx]
+        simp only [Option.map_some]
+        apply fin
+        left
+        have hcol : columnOf (rows ++ (t :: ts) :: rows2) 0 ∈ columnsOf c (rows ++ (t :: ts) :: rows2) := by
+          simp only [columnsOf, List.mem_map, List.mem_range]
+          exact ⟨0, h.cpos, rfl⟩
+        apply allFloatCols_none_of_mem ft _ _ t hcol _ hnf
+        simp only [columnOf, List.mem_map]
+        exact ⟨t :: ts, by simp, rfl⟩
+
+/-- no blank/comment line in the body, or nothing after the window, and numeric tokens: genfromtxt succeeds -/
+theorem numpy_plain_ok {ft : FloatTable} {body after : List Str} {c : Nat} {rows : List (List Str)} (h : PlainData ft body after c rows)
+    (hnum : Numeric ft rows) (hpath : body.length = rows.length ∨ after = []) :
+    numpyEngineLines ft body.length (body ++ after) = some (matrixColumns ft c rows) := by
+  have hb := body_ne h.body h.rne
+  have hm : ¬ body.length < 1 := by
+    cases body with
+    | nil => exact absurd rfl hb
+    | cons _ _ => simp
+  obtain ⟨k, hk⟩ : ∃ k, body.length = rows.length + k := ⟨body.length - rows.length, by have := body_length h.body; omega⟩
+  have hcoll : npCollect c (rows.length + k) (body ++ after) = some rows := by
+    rw [body_npCollect h.cpos h.body after k]
+    rcases hpath with hp | rfl
+    · have : k = 0 := by omega
+      subst this; rw [npCollect_zero]; simp
+    · rw [npCollect_nil]; simp
+  unfold numpyEngineLines
+  simp only [hm, ↓reduceIte, body_npFirstCount h.cpos h.body h.rne after]
+  rw [hk, hcoll]
+  simp only
+  rw [matrixColumns_eq]
+  apply allFloatCols_of_all
+  intro col hcol t ht
+  simp only [columnsOf, List.mem_map, List.mem_range] at hcol
+  obtain ⟨j, hj, rfl⟩ := hcol
+  simp only [columnOf, List.mem_map] at ht
+  obtain ⟨r, hr', rfl⟩ := ht
+  have hl := body_rows_len h.body r hr'
+  have : r.getD j [] ∈ r := by
+    rw [List.getD_eq_getElem?_getD, List.getElem?_eq_getElem (by omega)]
+    simp
+  exact hnum r hr' _ this
+
+/-- a blank/comment line in the body and a following section: genfromtxt raises -/
+theorem numpy_plain_raises {ft : FloatTable} {body after : List Str} {c : Nat} {rows : List (List Str)}
+    (h : PlainData ft body after c rows) (hskip : rows.length < body.length) (hafter : after ≠ []) :
+    numpyEngineLines ft body.length (body ++ after) = none := by
+  have hm : ¬ body.length < 1 := by omega
+  obtain ⟨k, hk⟩ : ∃ k, body.length = rows.length + (k + 1) := ⟨body.length - rows.length - 1, by omega⟩
+  unfold numpyEngineLines
+  simp only [hm, ↓reduceIte, body_npFirstCount h.cpos h.body h.rne after]
+  rw [hk, body_npCollect h.cpos h.body after (k + 1)]
+  rcases h.next with rfl | ⟨ln, rest, t, ts, rfl, htok, hnf⟩
+  · exact absurd rfl hafter
+  · rcases npCollect_next c k ln rest t ts htok with hx | ⟨rows2, hx⟩
+    · rw [hx]; rfl
+    · rw [hx]
+      simp only [Option.map_some]
+      have hcol : columnOf (rows ++ (t :: ts) :: rows2) 0 ∈ columnsOf c (rows ++ (t :: ts) :: rows2) := by
+        simp only [columnsOf, List.mem_map, List.mem_range]
+        exact ⟨0, h.cpos, rfl⟩
+      apply allFloatCols_none_of_mem ft _ _ t hcol _ hnf
+      simp only [columnOf, List.mem_map]
+      exact ⟨t :: ts, by simp, rfl⟩
+
+/-! ### the normal engine on plain data -/
+
+theorem normal_plain (ft : FloatTable) (sb : Subs) {body : List Str} {c : Nat} {rows : List (List Str)}
+    (h : Body c body rows) (hc : 0 < c) (hr : rows ≠ []) :
+    normalEngineLines ft sb .space c body = .ok (matrixColumns ft c rows) :=
+  normalEngineLines_matrix ft sb .space body rows c hc hr (body_rows_len h) (body_normalTokens sb h)
+
+/-- the curves `readData` builds from the matrix -/
+def plainResult (ft : FloatTable) (p : NullPolicy) (st : Steer) (d c : Nat) (rows : List (List Str)) : List (Slot × Column) :=
+  assignCurves d (applyNull (p == .strict) st.nullValue (matrixColumns ft c rows))
+
+theorem readerColumns_plain (st : Steer) (d c : Nat) (hw : st.wrapped ≠ yesTxt) : readerColumns st d (some c) = c := by
+  have : (st.wrapped == yesTxt) = false := by simpa using hw
+  simp [readerColumns, this]
+
+/-! ## Part 4: rectangular results, case analysis of `applyNullCol` -/
+
+def Rect (cols : List Column) : Prop := ∃ L, ∀ c ∈ cols, c.length = L
+
+theorem normalEngineLines_rect (ft : FloatTable) (sb : Subs) (dlm : Dlm) (n : Nat) (body : List Str) (cols : List Column)
+    (h : normalEngineLines ft sb dlm n body = .ok cols) : Rect cols := by
+  unfold normalEngineLines at h
+  generalize normalTokens sb dlm body = toks at h
+  by_cases he : toks.isEmpty = true
+  · simp [he] at h; subst h; exact ⟨0, by simp⟩
+  · simp only [he, Bool.false_eq_true, ↓reduceIte] at h
+    split at h
+    · split at h
+      · simp at h
+      · simp only [Except.ok.injEq] at h
+        subst h
+        refine ⟨(reshape n toks).length, ?_⟩
+        intro c hc
+        simp only [List.mem_map] at hc
+        obtain ⟨col, hcol, rfl⟩ := hc
+        rw [typedColumn_length]
+        exact mem_columnsOf_length _ _ col hcol
+    · simp at h
+
+theorem numpyEngineLines_rect (ft : FloatTable) (maxRows : Nat) (rest : List Str) (cols : List Column)
+    (h : numpyEngineLines ft maxRows rest = some cols) : Rect cols := by
+  unfold numpyEngineLines at h
+  split at h
+  · simp at h
+  · split at h
+    · simp only [Option.some.injEq] at h; subst h
+      exact ⟨0, by simp [Column.length]⟩
+    · rename_i c _
+      split at h
+      · simp at h
+      · rename_i rows _
+        have := allFloatCols_eq ft _ cols h
+        subst this
+        refine ⟨rows.length, ?_⟩
+        intro col hc
+        simp only [List.mem_map] at hc
+        obtain ⟨x, hx, rfl⟩ := hc
+        rw [typedColumn_length]
+        exact mem_columnsOf_length _ _ x hx
+
+theorem assignCurves_rect (d : Nat) (cols : List Column) (h : Rect cols) :
+    ∀ sc ∈ assignCurves d cols, sc.2.length = curveLength cols := by
+  obtain ⟨L, hL⟩ := h
+  intro sc hsc
+  simp only [assignCurves, List.mem_append, List.mem_map] at hsc
+  rcases hsc with hsc | ⟨j, _, rfl⟩
+  · have hmem : sc.2 ∈ cols := by
+      have : sc.2 ∈ (assignFrom d 0 cols).map Prod.snd := List.mem_map_of_mem hsc
+      rwa [assignFrom_snd] at this
+    cases cols with
+    | nil => simp at hmem
+    | cons c cs =>
+      simp only [curveLength]
+      rw [hL _ hmem, hL c (by simp)]
+  · simp [nanColumn, Column.length]
+
+theorem applyNullCol_floats_cases (u : Bool) (null : Option Str) (j : Nat) (cells : List Str) :
+    applyNullCol u null j (.floats cells) = .floats cells ∨
+      ∃ nv, null = some nv ∧ applyNullCol u null j (.floats cells) = .floats (nullCells nv cells) := by
+  cases null with
+  | none => left; exact applyNullCol_nonnumeric u j _
+  | some nv =>
+    by_cases h : (u && j != 0) = true
+    · right; exact ⟨nv, rfl, by simp [applyNullCol, h]⟩
+    · left; simp [applyNullCol, h]
+
+/-! ## helpers for concrete examples -/
+
+theorem quiet_digit (s : String) (h : simplePlain s.toList = true) : QuietTok s.toList := quietTok_of_simple _ h
+
+theorem allWs_dec (s : Str) (h : s.all isPySpace = true) : AllWs s := by
+  intro c hc; exact List.all_eq_true.mp h c hc
+
+/-! ## the plain decimal grammar is inside `simplePlain` -/
+
+/-- how many dots may still come -/
+def pDots : PState → Nat
+  | .start | .sign | .int => 1
+  | _ => 0
+
+/-- was the last character a digit -/
+def pPrevDigit : PState → Bool
+  | .int | .frac | .expDigits => true
+  | _ => false
+
+def ndh : Bool → Str → Bool
+  | _, [] => true
+  | pd, c :: cs => !(pd && c == '-') && ndh (isUDigit c) cs
+
+theorem noDigitHyphen_eq_ndh (s : Str) : noDigitHyphen s = ndh false s := by
+  have : ∀ (a : Char) (s : Str), noDigitHyphen (a :: s) = ndh (isUDigit a) s := by
+    intro a s
+    induction s generalizing a with
+    | nil => rfl
+    | cons b r ih => simp only [noDigitHyphen, ndh, ih]
+  cases s with
+  | nil => rfl
+  | cons a r => simp [ndh, this]
+
+theorem isDigit_isUDigit (c : Char) (h : isDigit c = true) : isUDigit c = true := by
+  obtain ⟨a, b⟩ := isDigit_toNat c h
+  unfold isUDigit
+  simp only [Bool.or_eq_true, Bool.and_eq_true, decide_eq_true_eq]
+  left; left; exact ⟨a, b⟩
+
+theorem isDigit_ne (c d : Char) (h : isDigit c = true) (hd : isDigit d = false) : (c == d) = false := by
+  rw [beq_eq_false_iff_ne]; intro e; subst e; simp [h] at hd
+
+theorem charClass_facts (c : Char) :
+    match charClass c with
+    | .digit => plainChar c = true ∧ isUDigit c = true ∧ (c == '.') = false ∧ (c == '-') = false
+    | .dot => plainChar c = true ∧ isUDigit c = false ∧ c = '.' ∧ (c == '-') = false
+    | .e => plainChar c = true ∧ isUDigit c = false ∧ (c == '.') = false ∧ (c == '-') = false
+    | .sg => plainChar c = true ∧ isUDigit c = false ∧ (c == '.') = false
+    | .other => True := by
+  unfold charClass
+  by_cases h1 : isDigit c = true
+  · simp only [h1, ↓reduceIte]
+    exact ⟨by simp [plainChar, h1], isDigit_isUDigit c h1, isDigit_ne c '.' h1 (by decide), isDigit_ne c '-' h1 (by decide)⟩
+  · simp only [h1, Bool.false_eq_true, ↓reduceIte]
+    by_cases h2 : (c == '.') = true
+    · simp only [h2, ↓reduceIte]
+      have : c = '.' := by simpa using h2
+      subst this
+      exact ⟨by decide, by decide, rfl, by decide⟩
+    · simp only [h2, Bool.false_eq_true, ↓reduceIte]
+      by_cases h3 : (c == 'e' || c == 'E') = true
+      · simp only [h3, ↓reduceIte]
+        simp only [Bool.or_eq_true, beq_iff_eq] at h3
+        rcases h3 with rfl | rfl <;> exact ⟨by decide, by decide, by decide, by decide⟩
+      · simp only [h3, Bool.false_eq_true, ↓reduceIte]
+        by_cases h4 : (c == '+' || c == '-') = true
+        · simp only [h4, ↓reduceIte]
+          simp only [Bool.or_eq_true, beq_iff_eq] at h4
+          rcases h4 with rfl | rfl <;> exact ⟨by decide, by decide, by decide⟩
+        · simp only [h4, Bool.false_eq_true, ↓reduceIte]
+
+theorem pRun_inv (q : PState) (s : Str) (h : pRun q s = true) :
+    (∀ c ∈ s, plainChar c = true) ∧ s.count '.' ≤ pDots q ∧ ndh (pPrevDigit q) s = true := by
+  induction s generalizing q with
+  | nil => simp [ndh]
+  | cons c cs ih =>
+    simp only [pRun] at h
+    have hf := charClass_facts c
+    cases hcl : charClass c <;> rw [hcl] at hf h <;> simp only at hf <;> cases q <;>
+      simp only [pStep, Bool.false_eq_true] at h <;>
+      (obtain ⟨i1, i2, i3⟩ := ih _ h
+       simp only [pDots, pPrevDigit] at i2 i3 ⊢
+       refine ⟨fun x hx => ?_, ?_, ?_⟩
+       · simp only [List.mem_cons] at hx
+         rcases hx with rfl | hx
+         · exact hf.1
+         · exact i1 x hx
+       · first
+         | (have : c = '.' := hf.2.2.1
+            subst this
+            simp only [List.count_cons_self]; omega)
+         | (have hne : c ≠ '.' := by have := hf.2.2.1; simpa using this
+            rw [List.count_cons_of_ne hne]; omega)
+         | (have hne : c ≠ '.' := by have := hf.2.2; simpa using this
+            rw [List.count_cons_of_ne hne]; omega)
+       · simp only [ndh, hf.2.1, Bool.false_and, Bool.not_false, Bool.true_and]
+         first
+         | exact i3
+         | (simp only [hf.2.2.2, Bool.not_false, Bool.true_and]; exact i3))
+
+theorem simplePlain_of_grammar (t : Str) (h : isPlainDecimal t = true) : simplePlain t = true := by
+  obtain ⟨h1, h2, h3⟩ := pRun_inv .start t h
+  have hne : t.isEmpty = false := by
+    cases t with
+    | nil => simp [isPlainDecimal, pRun, pAccept] at h
+    | cons _ _ => rfl
+  unfold simplePlain
+  simp only [hne, Bool.not_false, Bool.true_and, Bool.and_eq_true, List.all_eq_true, decide_eq_true_eq]
+  exact ⟨⟨h1, h2⟩, by rw [noDigitHyphen_eq_ndh]; exact h3⟩
+
 end Lasio.Dt
